@@ -2,6 +2,7 @@ package main
 
 import (
 	"fmt"
+	"go/token"
 	"math/big"
 	"strings"
 
@@ -111,8 +112,17 @@ func checkC05(c *Checker) {
 				}
 				l := e.Loops[0]
 				loopsSeen[l.ID] = true
+				// position of this iteration: i, or N-1-i for a loop that walks down - the latter only where source and
+				// destination can never have the same element type (float <-> fixed), because the order of a conversion
+				// is observable when windows of one element type overlap
+				posT := l.K
 				if !eqInt(e.Idx, l.K) {
-					okR2, d2 = false, "store position is not the loop index: "+e.String()
+					rev := mkBin(token.SUB, mkBin(token.SUB, l.Trip, mkInt(1, intT), intT), l.K, intT)
+					if eqInt(e.Idx, rev) && c.crossKind(name) {
+						posT = rev
+					} else {
+						okR2, d2 = false, "store position is not the loop index: "+e.String()
+					}
 				}
 				stores = append(stores, e)
 				v := valTerm(e.Val)
@@ -122,11 +132,14 @@ func checkC05(c *Checker) {
 				}
 				checkDeps := func(x *Term, what string) {
 					for _, ld := range elemLoads(x) {
-						if !isElemOf(ld, src.stor(), l.K) {
+						if !isElemOf(ld, src.stor(), posT) {
 							okR2, d2 = false, what+" reads "+pretty(canon(ld))+", not source sample i"
 						}
 					}
 					x.walk(func(y *Term) bool {
+						if y.Op == OpElem {
+							return false // the position of a load is checked above, not part of the kernel's inputs
+						}
 						if y.Op == OpAtom && y.Loop == nil && y.Name != src.name+hdrLayout.depthSuffix() && y.Name != dst.name+hdrLayout.depthSuffix() && !strings.HasPrefix(y.Name, "sizeof(") {
 							okR2, d2 = false, what+" depends on "+y.Name+" (neither the sample nor a bit depth)"
 						}
@@ -314,4 +327,30 @@ func contradict(a, b *Facts) bool {
 		}
 	}
 	return false
+}
+
+// crossKind: in every instantiation of the conversion one of source and destination is a float type and the other an
+// integer type, so the two buffers can never share storage.
+func (c *Checker) crossKind(name string) bool {
+	n := 0
+	for k := range c.W.Funcs {
+		i := strings.Index(k, name+"[")
+		if i < 0 || !strings.HasSuffix(k, "]") || strings.Contains(k, "$") {
+			continue
+		}
+		args := strings.Split(k[i+len(name)+1:len(k)-1], ",")
+		if len(args) != 2 {
+			continue
+		}
+		ts, td := c.typeByName(strings.TrimPrefix(strings.TrimSpace(args[0]), c.W.Pkg.PkgPath+".")), c.typeByName(strings.TrimPrefix(strings.TrimSpace(args[1]), c.W.Pkg.PkgPath+"."))
+		if ts == nil || td == nil {
+			return false
+		}
+		ks, kd := kindOf(ts), kindOf(td)
+		if !ks.OK || !kd.OK || ks.Float == kd.Float {
+			return false
+		}
+		n++
+	}
+	return n > 0
 }
